@@ -1,1 +1,11 @@
 import Martian.Props.C01
+open Martian.Props.C01
+#print axioms relay_one_to_one
+#print axioms writeIdx_item
+#print axioms writeIdx_tail
+#print axioms writeIdx_run_ge
+#print axioms relay_in_order
+#print axioms response_is_origins
+#print axioms served_prefix_is_until_first_close
+#print axioms closes_iff_asked
+#print axioms next_request_served_iff
